@@ -51,6 +51,13 @@ KindTable ==
     objopt   |-> K(ObjPQ(FALSE), PQ(4, SA), PQ(8, SB), "DefaultOnObjectWithOptionalFields"),
     addlmap  |-> K([type |-> <<"object">>, additionalProperties |-> [k |-> "s", s |-> Str_]],
                    JObj(<<KV("k", SA)>>), JObj(<<KV("k", SB), KV("j", SA)>>), ""),
+    \* the typed maps are filled from the default (before fix 64007ab they were emitted empty)
+    addlmapint  |-> K([type |-> <<"object">>, additionalProperties |-> [k |-> "s", s |-> Int_]],
+                      JObj(<<KV("k", JNum(12))>>), JObj(<<KV("k", JNum(-4)), KV("j", JNum(0))>>), ""),
+    addlmapnum  |-> K([type |-> <<"object">>, additionalProperties |-> [k |-> "s", s |-> [type |-> <<"number">>]]],
+                      JObj(<<KV("k", JNum(6))>>), JObj(<<KV("j", JNum(8))>>), ""),
+    addlmapbool |-> K([type |-> <<"object">>, additionalProperties |-> [k |-> "s", s |-> [type |-> <<"boolean">>]]],
+                      JObj(<<KV("k", JBool(TRUE))>>), JObj(<<KV("k", JBool(FALSE)), KV("j", JBool(TRUE))>>), ""),
     date     |-> K([type |-> <<"string">>, format |-> "date"], JFmt("date"), JFmt("date"), "DefaultOnFormat"),
     datetime |-> K([type |-> <<"string">>, format |-> "date-time"], JFmt("date-time"), JFmt("date-time"), "DefaultOnFormat"),
     anyzero  |-> K([type |-> <<>>], JNum(0), JBool(FALSE), ""),          \* untyped: interface{} field, zero-like defaults
